@@ -156,6 +156,15 @@ int main(void)
       pr_matrix("cc", cc);
       DelMatrix(&cc); DelMatrix(&x); DelMatrix(&y);
     }
+    else if(!strcmp(op, "kmcv")){
+      /* kmcv M MAXCL INIT GROUPS ITERS NTH : cross-validated k-means (seeds its own stream); the second call goes into the
+       * vector that already holds the first result */
+      matrix *x = rd_matrix(); size_t maxcl = rd_size(); long init = rd_long(); size_t groups = rd_size(), iters = rd_size(), nth = rd_size();
+      dvector *ss; initDVector(&ss);
+      KMeansRandomGroupsCV(x, maxcl, (int)init, groups, iters, ss, nth); pr_dvector("ssdist", ss);
+      KMeansRandomGroupsCV(x, maxcl, (int)init, groups, iters, ss, nth); pr_dvector("ssdist_again", ss);
+      DelDVector(&ss); DelMatrix(&x);
+    }
     else{ fprintf(stderr, "unknown op %s\n", op); return 2; }
     pr_end();
   }
